@@ -1,7 +1,7 @@
 ------------------------------ MODULE Trace_Reader ------------------------------
 (* Recorded scanner steps of the hooked binary against Reader (the scanner as     *)
 (* coded).  Events (thread "S"):                                                  *)
-(*   Case    [pk : Seq([link, size]), filter, skip, src, cut]   one run starts     *)
+(*   Case    [pk : Seq([link, fee, size]), filter [k, v], skip, src, cut]   one run starts     *)
 (*   rdh     a = tracked offset when an RDH has been read, b = its offset to next, *)
 (*           c = its link id                                                      *)
 (*   deliver a = offset attached to the packet, b = payload bytes handed over      *)
@@ -13,11 +13,11 @@ EXTENDS Reader, Json, IOUtils
 Rec == ndJsonDeserialize(IOEnv.TRACE)
 VARIABLE l
 tv == << stream, filter, skip, src, cut, rvars, l >>
-TInit == l = 1 /\ RInit /\ stream = << >> /\ filter = 0 /\ skip = FALSE /\ src = "file" /\ cut = 0
+TInit == l = 1 /\ RInit /\ stream = << >> /\ filter = [k |-> "none", v |-> 0] /\ skip = FALSE /\ src = "file" /\ cut = 0
 Ev(e) == l <= Len(Rec) /\ Rec[l].e = e /\ l' = l + 1
 KeepCase == UNCHANGED << stream, filter, skip, src, cut >>
 NewCase == /\ Ev("Case") /\ stream' = Rec[l].pk /\ filter' = Rec[l].filter /\ skip' = Rec[l].skip /\ src' = Rec[l].src /\ cut' = Rec[l].cut
-           /\ pos' = 0 /\ tracked' = 0 /\ pc' = "load" /\ cur' = [link |-> 0, size |-> 0, at |-> 0] /\ batch' = << >> /\ sent' = << >> /\ cdpoff' = 0
+           /\ pos' = 0 /\ tracked' = 0 /\ pc' = "load" /\ cur' = NoCur /\ batch' = << >> /\ sent' = << >> /\ cdpoff' = 0
            /\ rseen' = 0 /\ rfilt' = 0 /\ rpay' = 0 /\ rerrs' = << >> /\ rfatal' = FALSE
 Silent == UNCHANGED l /\ KeepCase /\ (CheckOffset \/ Filter \/ Deliver \/ (LoadRdh /\ pc' = "done"))
 Observed ==
